@@ -60,6 +60,22 @@ def setup():
     TARGETS['cl_' + lk] = dict(call=gin.configurable(mk_cl('cl_' + lk), **kw), sig=['a', 'b'], varkw=False, lists=kw)
   for lk, kw in (('none', {}), ('allow', {'allowlist': ['a', 'zz']}), ('deny', {'denylist': ['b']})):
     TARGETS['vk_' + lk] = dict(call=gin.configurable(mk_vk('vk_' + lk), **kw), sig=['a'], varkw=True, lists=kw)
+  # functions already wrapped by an ordinary user decorator (functools.wraps, *args/**kwargs wrapper)
+  import functools  # pylint: disable=import-outside-toplevel
+
+  def user_deco(fn):
+    @functools.wraps(fn)
+    def wrapper(*args, **kwargs):
+      return fn(*args, **kwargs)
+    return wrapper
+
+  def user_deco2(fn):
+    return user_deco(user_deco(fn))
+  TARGETS['deco_cfg'] = dict(call=gin.configurable(user_deco(mk_fx('deco_cfg'))), sig=['a', 'b'], varkw=False, lists={})
+  TARGETS['deco2_cfg'] = dict(call=gin.configurable(user_deco2(mk_fx('deco2_cfg')), denylist=['b']), sig=['a', 'b'],
+                              varkw=False, lists={'denylist': ['b']})
+  TARGETS['deco_ext'] = dict(call=gin.external_configurable(user_deco(mk_fx('deco_ext')), name='deco_ext', module='c11'),
+                             sig=['a', 'b'], varkw=False, lists={})
   ns = {'REC': REC, 'gin': gin}
   exec('def pre_fn(x=0, y=0):\n  REC.append(("pre_fn", gin.current_scope_str(), dict(x=x, y=y)))\n', ns)  # pylint: disable=exec-used
   ns['pre_fn'].__module__ = 'c11'
